@@ -1,9 +1,50 @@
 import TaurexModel.Proto
+import TaurexModel.Sigma
+import TaurexModel.Transmission
+import TaurexModel.Ops.C01
 
 namespace Taurex.Ops.C03
-open Taurex.Proto
+open Taurex.Proto Taurex.Sigma Taurex.Ops.C01
 
-/-- operations of the C03 model served by `driver_c03` (filled in by the C03 check) -/
-def ops : List Op := []
+def out3 (nl nwn : Nat) (comps : List (Nat → Nat → Float)) : String :=
+  fList (fun c => fList (fList fF) (tab2 nl nwn c)) comps ++ " " ++ fList (fList fF) (tab2 nl nwn (sumComps comps))
+
+/-- `c03.sigma_abs nl nwn xsecs[gas][layer][wn] mixes[gas][layer]` → components[gas][layer][wn] total[layer][wn] -/
+def sigmaAbsOp (args : List String) : Option String :=
+  run (do
+    let nl ← nat
+    let nwn ← nat
+    let xs ← listOf (listOf (listOf flt))
+    let ms ← listOf (listOf flt)
+    if xs.length ≠ ms.length then failure
+    let comps := (xs.zip ms).map fun (x, m) => compAbs (fn2 x) (fn1 m)
+    pure (out3 nl nwn comps)) args
+
+/-- `c03.sigma_cia nl nwn xsecs[pair][layer][wn] mix1[pair][layer] mix2[pair][layer]` -/
+def sigmaCiaOp (args : List String) : Option String :=
+  run (do
+    let nl ← nat
+    let nwn ← nat
+    let xs ← listOf (listOf (listOf flt))
+    let m1 ← listOf (listOf flt)
+    let m2 ← listOf (listOf flt)
+    if xs.length ≠ m1.length ∨ xs.length ≠ m2.length then failure
+    let comps := (xs.zip (m1.zip m2)).map fun (x, a, b) => compCIA (fn2 x) (fn1 a) (fn1 b)
+    pure (out3 nl nwn comps)) args
+
+/-- `c03.sigma_scaled nl nwn laws[mol][wn] mixes[mol][layer]` -/
+def sigmaScaledOp (args : List String) : Option String :=
+  run (do
+    let nl ← nat
+    let nwn ← nat
+    let ls ← listOf (listOf flt)
+    let ms ← listOf (listOf flt)
+    if ls.length ≠ ms.length then failure
+    let comps := (ls.zip ms).map fun (x, m) => compScaled (fn1 x) (fn1 m)
+    pure (out3 nl nwn comps)) args
+
+def ops : List Op :=
+  [("c03.sigma_abs", sigmaAbsOp), ("c03.sigma_cia", sigmaCiaOp), ("c03.sigma_scaled", sigmaScaledOp)]
+  ++ Taurex.Ops.C01.ops
 
 end Taurex.Ops.C03
